@@ -33,7 +33,7 @@ def handle (inp impl : Json) : CaseResult :=
       why := if !wellFormed then "harness rendering differs from model rendering of the claim"
              else if ok then "" else "routing decision differs from name/major/minor rule" }
   else
-    let ok := Spec.C16.okRaw incoming name panicked m
+    let ok := Spec.C16.okRaw incoming name version panicked m
     { model := decisionJson d, spec := ok,
-      why := if ok then "" else "malformed identifier matched or panicked" }
+      why := if ok then "" else "malformed identifier matched or panicked, or numeric version outside the major/minor rule matched" }
 end Driver.C16
